@@ -104,6 +104,16 @@ def enrich(rng, tree, sent=None):
     for f, c in ((b'access.log', b'existing log line\n'), (b'rws.log', b''), (b'rws.config.toml', b"ip = '127.0.0.1'\nport = 7878\n"), (b'upload.txt', b'to be overwritten?\n'),
                  (first + b'.part', b'half an upload'), (first + b'.gz', b'\x1f\x8b'), (b'rws.rejected_request', b'old'), (b'.htaccess', b'deny'), (first + b'~', b'backup')):
         if rng.chance(1, 2): tree.file(root + f, c)
+    # sidecar files next to a served file, as servers with precompressed / cached / backup copies keep them: OLDER than the file for the
+    # first name (they are created before it: the tree is built in the order of `tree.files`), NEWER for the second - a read path that
+    # refreshes, removes or rewrites a stale sidecar changes the manifest
+    SIDE = (b'.gz', b'.br', b'.zst', b'.bak', b'.orig', b'~', b'.tmp', b'.etag', b'.sha256', b'.meta', b'.cache')
+    regular = [n for n in names if root + n in tree.files]
+    if regular:
+        older = {root + regular[0] + sfx: b'stale sidecar ' + sfx for sfx in SIDE}
+        tree.files = {**older, **{k: v for k, v in tree.files.items() if k not in older}}
+        for sfx in SIDE:
+            if len(regular) > 1: tree.file(root + regular[1] + sfx, b'fresh sidecar ' + sfx)
     # names that need escaping in a target
     for nm in (b'sp ace.txt', b'pl+us.txt', b'per%cent.txt', b'am&p.txt', b'se;mi.txt', b'eq=ual.txt', b'\xc3\xbcml\xc3\xa4ut.txt', b'dotdot..txt', b'...', b'.hidden.txt'):
         if rng.chance(2, 3):
